@@ -88,6 +88,16 @@ def probes():
         return ctx['smt_parser'].get_script(
             StringIO(buf.getvalue())).get_last_formula()
 
+    def declare_new_names(env, ctx, f):
+        # a script that declares names no formula of the pool uses (the
+        # malformed declarations of 'smtlib_malformed_declaration' try to
+        # declare them at other sorts)
+        txt = ('(declare-sort c15S 0)(declare-fun c15new () Real)'
+               '(declare-fun c15fn (Real) Bool)(declare-const c15c c15S)'
+               '(define-fun c15df ((a Real)) Real (+ a 0.5))'
+               '(assert (and (c15fn (c15df c15new)) (= c15c c15c)))')
+        return ctx['smt_parser'].get_script(StringIO(txt)).get_last_formula()
+
     P = {
         'simplify': lambda env, ctx, f: f.simplify(),
         'substitute': sub_ident,
@@ -108,6 +118,7 @@ def probes():
         'hr_reparse': lambda env, ctx, f: ctx['hr_parser'].parse(
             f.serialize()),
         'normalize': lambda env, ctx, f: env.formula_manager.normalize(f),
+        'declare_new_names': declare_new_names,
     }
     return P
 
@@ -226,6 +237,34 @@ class Checker(object):
                 bad = ' '.join(toks[:k] + ['(c15_unknown_op'] + toks[k:])
             return outcome(lambda: ctx['smt_parser'].get_script(
                 StringIO(bad)))
+        if kind == 'smtlib_malformed_declaration':
+            # one malformed command that would declare a new name
+            bad = rng.choice([
+                '(declare-fun c15new () Int oops)',
+                '(declare-fun c15new (Int Int',
+                '(declare-fun c15new () Int',
+                '(declare-const c15new Int Int)',
+                '(declare-const c15c Bool',
+                '(declare-fun c15fn (Int) Int junk)',
+                '(define-fun c15df ((a Int)) Int a a)',
+                '(define-fun c15df ((a Int)) Int (+ a true))',
+                '(define-fun c15df ((a Int)) Bool a)',
+                '(declare-sort c15S 1 1)',
+            ])
+            return outcome(lambda: ctx['smt_parser'].get_script(
+                StringIO(bad)))
+        if kind == 'smtlib_fails_after_declarations':
+            # well-formed declarations of new names, then a command that
+            # fails
+            bad = rng.choice([
+                '(declare-fun c15fn (Int) Int))',
+                '(declare-fun c15new () Int)(declare-fun c15fn (Int) Int)'
+                '(assert (c15fn c15new))',
+                '(declare-const c15new Bool)(assert (and c15new',
+                '(declare-sort c15S 1)(declare-fun c15new () Int)(frob)',
+            ])
+            return outcome(lambda: ctx['smt_parser'].get_script(
+                StringIO(bad)))
         if kind == 'smtlib_type_error':
             bad = ('(set-logic QF_LRA)(define-fun c15_inc ((x Real)) Real '
                    '(+ x 1))(declare-fun c15_p () Bool)'
@@ -242,7 +281,9 @@ class Checker(object):
              'ill_typed_construction', 'symbol_redefinition',
              'fresh_symbol_bad_type', 'bad_constant', 'hr_undefined_symbol',
              'hr_syntax_error', 'smtlib_malformed', 'smtlib_type_error',
-             'smtlib_undeclared', 'in_with_env:ill_typed_construction',
+             'smtlib_undeclared', 'smtlib_malformed_declaration',
+             'smtlib_fails_after_declarations',
+             'in_with_env:ill_typed_construction',
              'in_with_env:bad_constant', 'in_with_env:hr_syntax_error'] + [
         'failpoint:' + p for p in ('simplify', 'substitute', 'free_vars',
                                    'atoms', 'theory', 'types', 'size', 'nnf',
@@ -338,6 +379,9 @@ class Checker(object):
         elif kind.startswith('smtlib_'):
             plan.insert(0, ('reparse', 0))
             plan.insert(1, ('reparse', 1))
+            if kind in ('smtlib_malformed_declaration',
+                        'smtlib_fails_after_declarations'):
+                plan.insert(0, ('declare_new_names', 0))
         self.run_twins(j, rep.shard, target, bps, kind, prefix, plan)
 
     def run_twins(self, j, shard, target, bps, kind, prefix, plan):
